@@ -110,7 +110,7 @@ class C07(Prop):
             'distinct = hash of (config, T, mode)')
 
     def gen(self, rng, tier):
-        n = 120 if tier == 'quick' else 1500
+        n = 300 if tier == 'quick' else 1500
         out = []
         for i in range(n):
             kinds = ('fixed', 'single', 'topn', 'smatrend')
